@@ -275,7 +275,7 @@ func childMain() {
 			for k, v := range hr.Headers {
 				rq.Header.Set(k, v)
 			}
-			resp, err := app.Test(rq, 20000)
+			resp, err := app.Test(rq, -1) // no deadline here: a hang is reported by the parent as an infrastructure failure, never as a verdict
 			if err != nil {
 				res.Status = append(res.Status, 0)
 				res.Resp = append(res.Resp, err.Error())
